@@ -13,8 +13,8 @@ from fdlstatic.model import (AnalysisError, ClassInfo, FuncInfo, Module,
 
 class Ctx:
 
-  def __init__(self, repo: str = None):
-    self.p = Project(repo)
+  def __init__(self, repo: str = None, expand=False):
+    self.p = Project(repo, expand=expand)
     self.types = Types(self.p)
     self._cg: Optional[CallGraph] = None
     self._cfgs: Dict[str, cfg_lib.CFG] = {}
